@@ -161,11 +161,17 @@ class World:
                 return "missing"
             if isinstance(c, SuitableVariantNotFoundError):
                 return "novariant"
+            if type(c) is ValueError and "should be a dict instance" in str(c):
+                return "notadict"
             return f"error:{type(c).__name__}:{c}"[:160]
         except MissingDiscriminatorError:
             return "missing"
         except SuitableVariantNotFoundError:
             return "novariant"
+        except ValueError as e:
+            if type(e) is ValueError and "should be a dict instance" in str(e):
+                return "notadict"
+            return f"error:ValueError:{e}"[:160]
         except Exception as e:  # noqa
             return f"error:{type(e).__name__}:{e}"[:160]
         i = self.ids.get(type(r))
@@ -253,8 +259,10 @@ def gen_history(rng, tier):
                 t = rng.choice(list(tags.values()))
             elif x < 0.8 and future:
                 t = rng.choice(future)
-            elif x < 0.9:
+            elif x < 0.86:
                 t = "unknown"
+            elif x < 0.9 and field:
+                t = rng.choice(["__nonmapping__", "__unhashable__"])   # not a mapping at all / a tag that cannot be a dict key
             else:
                 t = None
             ev = {"q": [root, t], "fields": sorted(rng.sample(range(ncls), rng.randint(0, ncls)))}
@@ -316,19 +324,24 @@ def real_history(ctx, h, idx):
                 root, t = e["q"]
                 first_decode.setdefault(root, k)
                 d = {}
-                if t is not None:
+                if t == "__unhashable__":
+                    d["type"] = ["t1"]
+                elif t is not None:
                     d["type"] = t
                 if not h["field"]:
                     for f in e["fields"]:
                         d[f"f{f}"] = f
                 for a in parents:
                     d[f"g{a}"] = 7
-                real.append(w.decode(root, dict(d), e.get("fmt", "dict")))
+                if t == "__nonmapping__":
+                    real.append(w.decode(root, [("type", "t1")], "dict"))
+                else:
+                    real.append(w.decode(root, dict(d), e.get("fmt", "dict")))
                 if not h["field"]:
                     # a variant accepts when every required field of its chain is present
                     acc = [c[0] for c in classes if all((not reqs[a]) or f"f{a}" in d for a in chain(parents, c[0]))]
                     lines.append({"op": "discrnf", "classes": [list(c) for c in classes], "root": root, "subtypes": h["sub"], "supertypes": h["sup"], "accepts": acc})
-            if h["mode"] == "config" and "m" not in e and "b" not in e:
+            if h["mode"] == "config" and "m" not in e and "b" not in e and not ("q" in e and e["q"][1] in ("__nonmapping__", "__unhashable__")):
                 own_trace.append(sorted([i, fi] for i, c in w.cls.items() for fi, name in meth.items() if name in c.__dict__))
     except Exception as e:  # noqa
         w.close()
@@ -368,7 +381,8 @@ def real_history(ctx, h, idx):
         for e in h["events"]:
             if "d" in e:
                 evs.append({"d": [e["d"][0], e["d"][1], model_tag(h, e["d"])]})
-            elif "q" in e:
+            elif "q" in e and e["q"][1] not in ("__nonmapping__", "__unhashable__"):
+                # (rejected before the registry is consulted: not an event of the registry machine)
                 evs.append({"q": [fmt_index[e.get("fmt", "dict")], e["q"][0], e["q"][1]]})
         rec["lines"] = lines + [{"op": "discrf", "subtypes": h["sub"], "supertypes": h["sup"], "events": evs}]
         rec["own_trace"] = own_trace
@@ -381,7 +395,8 @@ def judge_formats(ctx, rec, mf):
     h = rec["h"]
     case = {"history": h}
     qs = [e for e in h["events"] if "q" in e]
-    for k, (o, r) in enumerate(zip(mf["outs"], rec["real"])):
+    reals = [r for e, r in zip(qs, rec["real"]) if e["q"][1] not in ("__nonmapping__", "__unhashable__")]
+    for k, (o, r) in enumerate(zip(mf["outs"], reals)):
         if o.startswith("inst:"):
             _i, c, b = o.split(":")
             exp = f"inst:{c}" if c == b else "error:instance of"
@@ -435,6 +450,11 @@ def judge(ctx, rec, out):
         root, t = e["q"]
         r, m, s = real[qi], impl[qi], spec[qi]
         qi += 1
+        if t == "__nonmapping__":
+            # ValueError for a non-mapping argument (C05), whatever the registry holds
+            m = s = "notadict"
+        elif t == "__unhashable__":
+            m = s = "novariant"
         ctx.bump("outcome:" + r.split(":")[0])
         # is the statement's "unique eligible class tagged t" well defined at this event?
         if h["field"] and t is not None:
